@@ -22,6 +22,7 @@ type ExprCfg struct {
 	Hidden        bool   // F.GetH() (hidden state; only with the Forget discipline)
 	ComputedIndex bool   // F.RO[<expr>] with an index expression that is in range by construction
 	Chains        bool   // F.Mk(k).X style call chains
+	MixedSign     bool   // comparisons aimed at a signed (negative) operand against an unsigned location
 	NoPtrNum      bool   // exclude pointer-to-number reads
 	SmallLits     bool   // literals from the small domain only
 	// LinearStr keeps string values from growing faster than linearly over repeated firings:
@@ -635,6 +636,9 @@ func (g *XG) Bool(depth int) gast.Expr {
 	if depth > 0 {
 		alts[0].w = 1
 		alts = append(alts, alt{"cmpint", 6}, alt{"cmpfloat", 3}, alt{"cmpstr", 2}, alt{"logic", 5}, alt{"not", 2}, alt{"booleq", 1}, alt{"plain_and_negated", 1}, alt{"cmp_adjacent_big", 1})
+		if g.C.MixedSign {
+			alts = append(alts, alt{"cmp_mixed_sign", 1})
+		}
 		if len(g.pathsOf(gast.TTime, nil)) > 0 || g.C.Builtins {
 			alts = append(alts, alt{"cmptime", 1})
 		}
@@ -709,6 +713,32 @@ func (g *XG) Bool(depth int) gast.Expr {
 	case "not":
 		g.feat("not")
 		return &gast.Not{X: g.Bool(depth - 1)}
+	case "cmp_mixed_sign":
+		// a signed operand (a negative literal or a signed location) against an unsigned location
+		var us, ss []PathInfo
+		for _, p := range g.pathsOf(gast.TInt, nil) {
+			switch {
+			case p.ArithOnly:
+			case p.Unsigned:
+				us = append(us, p)
+			default:
+				ss = append(ss, p)
+			}
+		}
+		if len(us) == 0 {
+			return g.boolAtom()
+		}
+		var l gast.Expr = gast.I(-int64(g.pick(3, "ms_negative")) - 1)
+		if len(ss) > 0 && g.pick(2, "ms_signed_location") == 0 {
+			l = ss[g.pick(len(ss), "ms_signed")].Mk()
+		}
+		var r gast.Expr = us[g.pick(len(us), "ms_unsigned")].Mk()
+		op := cmpOps[g.pick(6, "cmp_op")]
+		g.feat("signed_against_unsigned")
+		if g.pick(2, "ms_swap") == 0 {
+			l, r = r, l
+		}
+		return &gast.Bin{Op: op, L: l, R: r}
 	case "cmp_adjacent_big":
 		// two integers beyond 2^53 that are equal or differ by one (exact 64-bit comparison)
 		base := []int64{1 << 53, 1<<53 + 1, 1 << 62, 9223372036854775806, -(1 << 53) - 1, -9223372036854775807}[g.pick(6, "big_base")]
